@@ -276,6 +276,8 @@ class Executor:
         self.havoc = havoc or (lambda name: False)
         self.max_paths = max_paths
         self.solver = z3.Solver()
+        self.timeout_ms = timeout_ms
+        self.prove_timeout_ms = 300000
         self.solver.set("timeout", timeout_ms)
         self.queries = 0
         self.solver_s = 0.0
@@ -284,9 +286,19 @@ class Executor:
         self.stats = {"paths": 0, "forks": 0, "calls_summarised": {}, "calls_inlined": {}, "calls_havoc": {}}
 
     # ---- solver ------------------------------------------------------------------------------
-    def check(self, conds):
+    def check(self, conds, timeout_ms=None):
         import time
         t0 = time.time()
+        if timeout_ms is not None:
+            self.solver.set("timeout", timeout_ms)
+        try:
+            return self._check(conds, t0)
+        finally:
+            if timeout_ms is not None:
+                self.solver.set("timeout", self.timeout_ms)
+
+    def _check(self, conds, t0):
+        import time
         self.solver.push()
         for c in conds:
             self.solver.add(c)
@@ -1241,6 +1253,9 @@ class Executor:
                 s2.note = "diverging " + t.func[:60]
                 out.append(s2)
                 continue
+            if isinstance(val, tuple) and val and val[0] == "event_then":
+                s2.events.append(val[1])
+                val = val[2]
             if isinstance(val, tuple) and val and val[0] == "write_then":
                 self.write_path(s2, val[1].cell, val[1].proj, val[2])
                 val = val[3]
